@@ -45,3 +45,16 @@ func (v *VerifModule) Request(table map[string][]VerifRule, req *bfe_basic.Reque
 	ret, resp := v.m.productBlockHandler(req)
 	return ret, resp, nil
 }
+
+// VerifRuleCount loads a product rule file with ProductRuleConfLoad and returns the number of rules per product.
+func VerifRuleCount(filename string) (map[string]int, error) {
+	conf, err := ProductRuleConfLoad(filename)
+	if err != nil {
+		return nil, err
+	}
+	out := map[string]int{}
+	for p, l := range conf.Config {
+		out[p] = len(*l)
+	}
+	return out, nil
+}
